@@ -42,7 +42,9 @@ func (f *Font) Write(w io.Writer) (int64, error) {
 
 	hheaData, hmtxData := f.makeHmtx()
 	tableData["hhea"] = hheaData
-	tableData["hmtx"] = hmtxData
+	if hmtxData != nil {
+		tableData["hmtx"] = hmtxData
+	}
 
 	if f.CMapTable != nil {
 		tableData["cmap"] = f.CMapTable.Encode()
@@ -176,9 +178,12 @@ func (f *Font) makeHead(locaFormat int16) []byte {
 }
 
 func (f *Font) makeHmtx() ([]byte, []byte) {
-	widths := make([]funit.Int16, f.NumGlyphs())
-	for i, w := range f.Widths() {
-		widths[i] = funit.Int16(w)
+	var widths []funit.Int16
+	if o, ok := f.Outlines.(*glyf.Outlines); !ok || o.Widths != nil {
+		widths = make([]funit.Int16, f.NumGlyphs())
+		for i, w := range f.Widths() {
+			widths[i] = funit.Int16(w)
+		}
 	}
 
 	hmtxInfo := &hmtx.Info{
